@@ -234,6 +234,15 @@ def generate(rng, cfg: Dict) -> Dict:
             ops.append([end, 0])
         if c.chance(0.3):
             ops.append(["gc"])
+        if end != "leave" and not q.get("rule") and not _has_tag(q, ("stream",)) and c.chance(0.3):
+            # (not with a one-shot stream in literal position: the first evaluation consumes it, by construction)
+            # the abandoned query is evaluated AGAIN: what the first evaluation pulled is replayed from the variable's
+            # cache, nothing beyond it may be pulled before it is needed
+            ops.append(["start", 1, 0])
+            for i in range(c.int(1, k + 2)):
+                ops.append(["step", 1])
+            if c.chance(0.5):
+                ops.append([c.pick(["close", "drop"]), 1])
     sc["ops"] = ops
     return sc
 
@@ -385,10 +394,12 @@ def execute(scenario: Dict) -> Dict:
             if p is not None:
                 pulled = mon.pulls.get(p[0], 0)
                 counters.inc("probe.L5_checked")
-                if pulled != p[1] + 1:
+                # (a re-evaluation replays what earlier evaluations of the variable pulled: the demand is exact beyond that)
+                if pulled != max(p[1] + 1, task.get("pulled_at_start", {}).get(p[0], 0)):
                     verdicts.append(kernel.verdict("C10.L5", f"holding the result that is stream element #{p[1] + 1} of domain {p[0]}, {pulled} elements have been pulled", phase="STEP", via="over-pull" if pulled > p[1] + 1 else "under-pull", query=qi))
                     task["flagged"] = True
-        if elig6.get(qi):
+        if elig6.get(qi) and not any(task.get("pulled_at_start", {}).values()):
+            # (L6 is stated for first passes over fresh streams; a re-evaluation replays the variables' caches)
             row = {}
             if isinstance(value, list) and value and value[0] == "row":
                 for label, val in value[1]:
@@ -497,7 +508,7 @@ def execute(scenario: Dict) -> Dict:
         kind = op[0]
         if kind == "start":
             _, tid, qi = op
-            if tid in tasks or qi >= nq or scenario["queries"][qi].get("q") == "the" or any(t["qi"] == qi for t in tasks.values()):
+            if tid in tasks or qi >= nq or scenario["queries"][qi].get("q") == "the" or any(t["qi"] == qi and t["state"] in ("new", "live") for t in tasks.values()):
                 counters.inc("ops_skipped")
                 continue
             mon.phase = "CALL"
@@ -508,7 +519,9 @@ def execute(scenario: Dict) -> Dict:
                 mon.phase = "IDLE"
                 continue
             mon.phase = "IDLE"
-            tasks[tid] = {"tid": tid, "qi": qi, "it": it, "state": "new", "results": []}
+            tasks[tid] = {"tid": tid, "qi": qi, "it": it, "state": "new", "results": [], "pulled_at_start": dict(mon.pulls)}
+            if any(t["qi"] == qi for t in tasks.values() if t["tid"] != tid):
+                counters.inc("fault.reevaluation_after_abandonment")
             log.add("start", tid, qi)
         elif kind in ("step", "drain"):
             t = tasks.get(op[1])
